@@ -53,7 +53,9 @@ NOTES = {
   "runs that a started join has its prerequisites and nothing is created "
   "twice.  C04.3 covers what a single process cannot show: two engine "
   "processes creating the same join, and two refresh jobs of one join, with "
-  "solver-chosen statement interleaving.  Reverse workflows: the invariant "
+  "solver-chosen statement interleaving.  C04.G repeats C04.E's invariants "
+  "over every generated 3 / 4-task shape that contains a join.  Reverse "
+  "workflows: the invariant "
   "of C01.R (a task is created only after every task it requires is "
   "SUCCESS) over all generated 'requires' DAGs."),
  'C05': ('a task sees exactly the data of its causal predecessors',
